@@ -162,7 +162,11 @@ def run_case(ctx: Ctx, case: Dict[str, Any]) -> None:  # noqa: C901
                               "variable has a value", case)
             else:
                 ctx.count("undocumented-exception(C14):%s" % type(got).__name__)
-        elif bool(got) != want:
+                ctx.violation("membership-raised:%s" % type(got).__name__, "nested contains_behavior raised %s instead "
+                              "of answering %s" % (type(got).__name__, want), case)
+        elif bool(got) == want:
+            ctx.count("agree:membership:%s" % want)
+        if not isinstance(got, Exception) and bool(got) != want:
             ctx.violation("membership-wrong", "nested contains_behavior(%s) on %s answered %s; some alternative "
                           "contains it: %s" % (pt, [X.fmt_list(a) for a in alts], got, want), case)
     elif kind == "le":
